@@ -370,7 +370,14 @@ def splice(prelude_src, master_src, ext_src, deferred, quarantined=()):
         mname = re.search(r"\b(?:const|static|type)\s+([A-Za-z_][A-Za-z_0-9]*)", txt)
         cname = mname.group(1) if mname else "?"
         report.setdefault("new_constant_names", []).append(cname)
-        if isinstance(quarantined, dict) and quarantined.get("const:" + cname, 0) >= 1:
+        clvl = quarantined.get("const:" + cname, 0) if isinstance(quarantined, dict) else 0
+        is_alias = bool(re.match(r"(\s*#\[[^\]]*\]\s*)*(pub(\([^)]*\))?\s+)?type\b", txt))
+        if clvl >= 2 or (is_alias and clvl >= 1):
+            # even its type is beyond the verifier (e.g. function pointers): not part of the verified crate; whatever
+            # mentions it cannot be verified either
+            txt = "#[verifier::external] // @opaque-const: not read by the verifier\n" + txt
+            report.setdefault("opaque_constants", []).append(cname)
+        elif clvl == 1:
             # its initialiser is beyond the verifier (e.g. it calls an exec function): the value is then unknown to it
             txt = "#[verifier::external_body] // @opaque-const: initialiser not read by the verifier\n" + txt
             report.setdefault("opaque_constants", []).append(cname)
